@@ -81,7 +81,8 @@ contract(E + 'write_indicator', props=['C15', 'C12', 'C05'],
 
 contract(E + 'write_line_break', props=['C15', 'C12'],
     params={'data': 'opt:str'},
-    requires=["inv_pos(self)"],
+    # C15: nobody asks for a line feed explicitly -- a line feed of the text is written as the effective line break (data is None)
+    requires=["inv_pos(self)", "data is None or data != '\\n'"],
     ensures=["inv_pos(self)",
              # C15: a line break nobody chose explicitly is the requested one
              "LOG(self) == old(LOG(self)) + [ENC(self, self.best_line_break if data is None else data)]",
@@ -272,6 +273,11 @@ contract(E + 'check_empty_document', props=['C12'],
     labels={0: 'only-for-an-empty-plain-root-scalar'}, modifies=[], raises=[])
 
 _WR = ['self.whitespace', 'self.indention', 'self.column', 'self.line', 'self.open_ended'] + OUT
+_DSE = "as_(self.event, 'obj:yaml.events.DocumentStartEvent')"
+_DIRECTIVES = "(%s.version is not None or (%s.tags is not None and len(%s.tags) > 0))" % (_DSE, _DSE, _DSE)
+_CM0 = "(typeis(self.event, 'obj:yaml.events.DocumentStartEvent') and old(self.open_ended) and %s)" % _DIRECTIVES
+_MARKER_FIRST = "(has_chunk(LOG(self), old(len(LOG(self))), ENC(self, '...')) or has_chunk(LOG(self), old(len(LOG(self))), ENC(self, ' ...')))"
+_CM = "%s ==> %s" % (_CM0, _MARKER_FIRST)
 contract(E + 'expect_document_start', props=['C12', 'C15', 'C11', 'C05'], max_paths=8,
     params={'first': 'bool'},
     requires=["inv_pos(self)", "doc_ok(self.event)", "len(self.events) > 0 ==> ev_ok(self.events[0])"],
@@ -285,6 +291,14 @@ contract(E + 'expect_document_start', props=['C12', 'C15', 'C11', 'C05'], max_pa
     ],
     labels={0: 'inv_pos', 1: 'accepts-only-document-start-or-stream-end', 2: 'next-is-the-root-node', 3: 'stream-end-is-final',
             4: 'tag-prefixes-rebuilt-per-document'},
+    axioms=[_has_chunk_lemmas],
+    # C12/C05: a document left open-ended (plain root scalar, keep-chomped block scalar) is closed with '...' BEFORE any %YAML / %TAG
+    # line of the next document and before the end of the stream -- otherwise the directive would be read as content of the scalar.
+    # Stated as lemmas at the program point in front of the directives (cut 1) and in front of the stream end (cut 2); cut 0: the
+    # marker is the last chunk right after it is written
+    cuts=[("self.write_indicator('...', True)", [_MARKER_FIRST]),
+          ("if (self.event.version or self.event.tags) and self.open_ended:", [_CM]),
+          ("if self.open_ended:", ["(typeis(self.event, 'obj:yaml.events.StreamEndEvent') and old(self.open_ended)) ==> %s" % _MARKER_FIRST])],
     invariants={0: ["inv_pos(self)", "fresh(self.tag_prefixes) and haskey(self.tag_prefixes, '!') and haskey(self.tag_prefixes, 'tag:yaml.org,2002:')",
                     "doc_ok(self.event)", "typeis(self.event, 'obj:yaml.events.DocumentStartEvent')", "self.state is old(self.state)",
                     "self.canonical is old(self.canonical) and self.event is old(self.event)"]},
@@ -494,11 +508,34 @@ _DQ_CONTRACT = dict(props=['C02', 'C15', 'C05'], max_paths=int(_os0.environ.get(
 import os as _os
 if _os.environ.get('PYVC_EXPERIMENT_DQ'):
     contract(E + 'write_double_quoted', **_DQ_CONTRACT)
-for _w in ['write_single_quoted'] + ([] if _os.environ.get('PYVC_EXPERIMENT_DQ') else ['write_double_quoted']):
+elif _os.environ.get('PYVC_DQ_LIGHT'):
+    # indices, position bookkeeping, frame and exception class only (the character-class invariant above did not discharge within budget)
+    contract(E + 'write_double_quoted', **dict(_DQ_CONTRACT, invariants={0: _DQ_INV[:2]}, cuts=[], max_paths=6))
+for _w in (['write_single_quoted'] if _os.environ.get('PYVC_NO_BLOCK_WRITERS') else []) + ([] if (_os.environ.get('PYVC_EXPERIMENT_DQ') or _os.environ.get('PYVC_DQ_LIGHT')) else ['write_double_quoted']):
     contract(E + _w, trusted=True, why='scalar writer loop: only its frame and inv_pos are used by the state-machine contracts', params={'text': 'str'},
              requires=["inv_pos(self)"], ensures=["inv_pos(self)"], modifies=['self.whitespace', 'self.indention', 'self.column', 'self.line', 'self.open_ended'] + OUT,
              raises=ENCERR, raises_any=True)
-for _w in ['write_folded', 'write_literal']:
+# ---- C15: "every CR/LF line break in the output is the requested line_break": the block-scalar writers hand a line break of the text
+# to write_line_break only when it is not a line feed (a line feed becomes write_line_break() = the effective break); that is the
+# precondition of write_line_break, proved at every call site of the writers under contract.  Loop invariants: indices only.
+_BW_INV = ["inv_pos(self)", "typeis(text, 'str') and 0 <= start and start <= end and end <= len(text) + 1"]
+if not _os.environ.get('PYVC_NO_BLOCK_WRITERS'):
+    contract(E + 'write_literal', props=['C15', 'C12', 'C05', 'C02'], params={'text': 'str'}, max_paths=int(_os.environ.get('BW_MP', '6')),
+             requires=["inv_pos(self)"], ensures=["inv_pos(self)"], labels={0: 'inv_pos'},
+             invariants={0: _BW_INV, 1: _BW_INV},
+             modifies=['self.whitespace', 'self.indention', 'self.column', 'self.line', 'self.open_ended'] + OUT,
+             raises=ENCERR, raises_any=True)
+    contract(E + 'write_folded', props=['C15', 'C12', 'C05', 'C02'], params={'text': 'str'}, max_paths=int(_os.environ.get('BW_MP', '6')),
+             requires=["inv_pos(self)"], ensures=["inv_pos(self)"], labels={0: 'inv_pos'},
+             invariants={0: _BW_INV, 1: _BW_INV},
+             modifies=['self.whitespace', 'self.indention', 'self.column', 'self.line', 'self.open_ended'] + OUT,
+             raises=ENCERR, raises_any=True)
+    contract(E + 'write_single_quoted', props=['C15', 'C12', 'C05', 'C02'], params={'text': 'str', 'split': 'bool'}, max_paths=int(_os.environ.get('BW_MP', '6')),
+             requires=["inv_pos(self)"], ensures=["inv_pos(self)"], labels={0: 'inv_pos'},
+             invariants={0: _BW_INV, 1: _BW_INV},
+             modifies=['self.whitespace', 'self.indention', 'self.column', 'self.line', 'self.open_ended'] + OUT,
+             raises=ENCERR, raises_any=True)
+for _w in (['write_literal', 'write_folded'] if _os.environ.get('PYVC_NO_BLOCK_WRITERS') else []):
     contract(E + _w, trusted=True, why='scalar writer loop: only its frame and inv_pos are used by the state-machine contracts', params={'text': 'str'},
              requires=["inv_pos(self)"], ensures=["inv_pos(self)"], modifies=['self.whitespace', 'self.indention', 'self.column', 'self.line', 'self.open_ended'] + OUT,
              raises=ENCERR, raises_any=True)
